@@ -66,6 +66,12 @@ CHECKS = {
         "Trusted: harness/src/model/price.rs (unit-tested); 1e-18 relative tolerance; either reading of chain staleness accepted for the rate, the code's own (stalest step) for the hook clause.",
         "4/C09",
     ),
+    "C10": (
+        "runtime monitor: accepted multi-commodity ledgers with ledger-derived and price-DB prices, 12 converted-balance queries each (targets x historical/up-to-date x ranges) on one Ledger; expected totals from the code's own register and the C09 reference price model; CLI sample",
+        "10^4 (quick) / 6*10^5 (thorough) ledgers: for every target commodity, both conversion strategies, report dates before/inside/after the price history and whole/closed/half-open date ranges, Ledger::balance with a conversion must return per account the sum of every holding (or, historically, every posting at its own date) times the reference rate, leave amounts already in T unchanged, show nothing in another commodity, be rounded only once to T's precision, and must fail whenever a needed rate does not exist on or before the relevant date. About half of the queries exercise the must-fail branch.",
+        "Trusted: harness/src/model/price.rs; price events read off the written postings (cost, else lot). Queries with several admissible rates are counted, not judged. Tolerance 1e-18 of the magnitude of the converted terms, ties at the rounding boundary accept both neighbours.",
+        "4/C10",
+    ),
 }
 
 NOT_APPLICABLE = []
